@@ -913,5 +913,155 @@ def rule_tcp_writer(ctx):
                       'frame.write_data_metadata(writer.write) on %d paths' % len(ps))
 
 
+def rule_decoder_entry(ctx, rule='C02.h'):
+    """C02.h  The decoder's entry point hands back the frame it decoded.  parse_or_ignore: a buffer is refused as too
+    short exactly when it is shorter than the 6-byte header (a CANCEL frame is 6 bytes); otherwise the header is parsed
+    from offset 0 of the buffer, the frame object is built from the registry entry of the header's frame type, its
+    parse() is given the whole buffer from offset 0, and that object is returned unless is_frame_to_ignore says so; a
+    failure of parse() is CONNECTION_ERROR unless the header carries the ignore flag.  is_frame_to_ignore is true only
+    for a METADATA_PUSH on a stream other than 0."""
+    rep = ctx.report
+    repo = ctx.repo
+    g = repo.func('rsocket.frame:parse_or_ignore')
+    ig = repo.func('rsocket.frame:is_frame_to_ignore')
+    if g is None or ig is None:
+        raise AnalysisError('%s: parse_or_ignore / is_frame_to_ignore vanished' % rule)
+    m = repo.module('rsocket.frame')
+    hl = m.assigns.get('HEADER_LENGTH')
+    if not hl or not isinstance(hl[-1], ast.Constant):
+        raise AnalysisError('%s: HEADER_LENGTH is not a constant' % rule)
+    header_length = hl[-1].value
+    buf = ('param', g.qualname, g.params()[0])
+    ln = ('pure', 'len', None, (buf,), 0, 0)
+    ps = ctx.paths(g, None, inline_depth=0, exc=('app',), symbolic_compare=True)
+    ok, detail = bool(ps), ''
+    n_ret_frame = n_short = n_conn = n_none = 0
+    for p in ps:
+        # the too-short test
+        thr = None
+        short = None
+        for e in p.events:
+            if e.kind != 'cond':
+                continue
+            k = strip_epoch(e.data['key'])
+            if len(k) == 3 and ln in (k[1], k[2]):
+                other = k[2] if k[1] == ln else k[1]
+                if other[0] != 'const':
+                    continue
+                c = other[1]
+                left = k[1] == ln
+                t = {('lt', True): c, ('le', True): c + 1, ('gt', False): c, ('ge', False): c + 1}.get((k[0], left))
+                if t is not None:
+                    thr, short = t, bool(e.data['value'])
+                else:
+                    t = {('ge', True): c, ('gt', True): c + 1, ('le', False): c, ('lt', False): c + 1}.get((k[0], left))
+                    if t is not None:
+                        thr, short = t, not bool(e.data['value'])
+                break
+        if thr is None:
+            ok, detail = False, 'a path does not compare the buffer length with the header size'
+            continue
+        if thr != header_length:
+            ok, detail = False, ('a buffer is refused as too short when it has fewer than %d bytes; the header - and a '
+                                 'whole CANCEL frame - is %d bytes' % (thr, header_length))
+            continue
+        if short:
+            n_short += 1
+            if p.outcome != 'raise' or 'ParseError' not in repr(strip_epoch(p.value.term)):
+                ok, detail = False, 'a buffer shorter than the header does not raise ParseError'
+            continue
+        # header parsed from offset 0 of the buffer
+        hp = [e for e in p.events if e.kind == 'call' and str(e.data.get('name', '')).endswith('parse_header')]
+        if len(hp) != 1 or [strip_epoch(a.term) for a in hp[0].data['args']][1:] != [buf, ('const', 0)]:
+            ok, detail = False, 'the header is not parsed from offset 0 of the buffer'
+            continue
+        header = strip_epoch(hp[0].data['args'][0].term)
+        # the frame object: registry[header.frame_type]()
+        ctor = [e for e in p.events if e.kind == 'call' and isinstance(e.node, ast.Call) and
+                isinstance(e.node.func, ast.Subscript)]
+        if len(ctor) != 1:
+            ok, detail = False, 'the frame object is not built from a registry entry'
+            continue
+        sub = ctor[0].node.func
+        key_ok = isinstance(sub.slice, ast.Attribute) and sub.slice.attr == 'frame_type'
+        table_ok = isinstance(sub.value, ast.Name) and isinstance((m.assigns.get(sub.value.id) or [None])[-1], ast.Dict)
+        if not key_ok or not table_ok:
+            ok, detail = False, 'the frame class is %s, not the registry entry of the header\'s frame type' % \
+                ast.unparse(sub)
+            continue
+        frame = strip_epoch(ctor[0].data['value'].term)
+        pc = [e for e in p.events if e.kind == 'call' and e.data.get('name') == 'parse' and e.seq > ctor[0].seq]
+        if len(pc) != 1 or [strip_epoch(a.term) for a in pc[0].data['args']] != [buf, ('const', 0)] or \
+                strip_epoch(pc[0].data['recv'].term) != frame:
+            ok, detail = False, 'the frame\'s parse() is not given the whole buffer from offset 0'
+            continue
+        failed = any(e.kind == 'except' for e in p.events)
+        if failed:
+            ign = [e for e in p.events if e.kind == 'cond' and strip_epoch(e.data['key']) ==
+                   ('truth', ('attr', header, 'flags_ignore'))]
+            if not ign:
+                ok, detail = False, 'a parse failure is not decided by the header\'s ignore flag'
+            elif ign[-1].data['value']:
+                n_none += 1
+                if p.outcome != 'return' or strip_epoch(p.value.term) != ('const', None):
+                    ok, detail = False, 'an undecodable frame with the ignore flag is not dropped'
+            else:
+                n_conn += 1
+                if p.outcome != 'raise' or 'CONNECTION_ERROR' not in repr([
+                        [strip_epoch(a.term) for a in e.data['args']] for e in p.events if e.kind == 'new']):
+                    ok, detail = False, 'an undecodable frame without the ignore flag is not a CONNECTION_ERROR'
+            continue
+        dec = [e for e in p.events if e.kind == 'cond' and 'is_frame_to_ignore' in repr(strip_epoch(e.data['key']))]
+        ignore = None
+        if dec:
+            k = strip_epoch(dec[-1].data['key'])
+            ignore = bool(dec[-1].data['value']) if k[0] == 'truth' else None
+            if k[0] == 'not':
+                ignore = not bool(dec[-1].data['value'])
+        if ignore is None:
+            ok, detail = False, 'a decoded frame is returned or dropped without asking is_frame_to_ignore'
+            continue
+        if p.outcome != 'return':
+            ok, detail = False, 'a decoded frame makes the decoder raise'
+        elif ignore:
+            if strip_epoch(p.value.term) != ('const', None):
+                ok, detail = False, 'a frame to ignore is handed on'
+        else:
+            n_ret_frame += 1
+            if strip_epoch(p.value.term) != frame:
+                ok, detail = False, 'a decoded frame that is not to be ignored is not what the decoder returns (%s)' % \
+                    fmt_term(strip_epoch(p.value.term))
+    if ok and not (n_ret_frame and n_short and n_conn and n_none):
+        ok, detail = False, 'missing case (decoded %d, short %d, connection error %d, ignored %d)' % (
+            n_ret_frame, n_short, n_conn, n_none)
+    rep.add(rule, 'parse_or_ignore / short < header size, registry[type](), parse(buffer, 0), the frame handed back', g,
+            ok, detail or 'threshold %d = HEADER_LENGTH; %d paths' % (header_length, len(ps)))
+    # is_frame_to_ignore
+    fr = ('param', ig.qualname, ig.params()[0])
+    ps = ctx.paths(ig, None, inline_depth=0, symbolic_compare=True)
+    ok, detail = bool(ps), ''
+    n_true = 0
+    for p in ps:
+        if p.outcome != 'return' or not p.value.is_const():
+            ok, detail = False, 'is_frame_to_ignore does not return a constant on a path'
+            continue
+        facts = {}
+        for e in p.events:
+            if e.kind == 'cond':
+                k = strip_epoch(e.data['key'])
+                if k[0] == 'isinstance' and k[1] == fr:
+                    facts['push'] = bool(e.data['value']) if any('MetadataPushFrame' in str(c) for c in k[2]) else None
+                elif k[0] in ('eq', 'ne') and ('attr', fr, 'stream_id') in k[1:3] and ('const', 0) in k[1:3]:
+                    facts['zero'] = bool(e.data['value']) if k[0] == 'eq' else not bool(e.data['value'])
+        if p.value.const is True:
+            n_true += 1
+            if facts.get('push') is not True or facts.get('zero') is not False:
+                ok, detail = False, 'a frame is ignored although it is not a METADATA_PUSH on a stream other than 0'
+        elif facts.get('push') is True and facts.get('zero') is False:
+            ok, detail = False, 'a METADATA_PUSH on a stream other than 0 is handed on'
+    rep.add(rule, 'is_frame_to_ignore / only METADATA_PUSH on a stream other than 0', ig, ok and n_true > 0,
+            detail or '%d paths' % len(ps))
+
+
 RULES = [('C02.a', rule_a), ('C02.b', rule_b), ('C02.b', rule_b2), ('C02.c', rule_c), ('C02.d', rule_d), ('C02.e', rule_e),
-         ('C02.f', rule_f), ('C02.g', rule_g), ('C02.e', rule_tcp_writer)]
+         ('C02.f', rule_f), ('C02.g', rule_g), ('C02.e', rule_tcp_writer), ('C02.h', rule_decoder_entry)]
